@@ -4,6 +4,17 @@ from rules import escapes, fields
 
 def check(ctx):
     rep = ctx.rep
+    from rules import tz as _tzz
+    nz = _tzz.check_zone_names(ctx, rep)
+    rep.floor("zone-name table obligations (T-ZONES)", nz, 2)
+    from rules import tz as _tzs
+    nsf = _tzs.check_strftime(ctx, rep)
+    rep.floor("time-of-day text writers", nsf, 3)
+    from rules import tz as _tzr
+    nr = _tzr.check_component_rebuild(ctx, rep)
+    rep.floor("timestamps rebuilt from components", nr, 1)
+    nu = _tzr.check_utc_shortcut(ctx, rep)
+    rep.floor("lookup-free UTC results in the Zinc reader", nu, 1)
     n1 = escapes.check_str(ctx, rep)
     n2 = escapes.check_uri(ctx, rep)
     n3 = escapes.check_raw_interpolations(ctx, rep)
